@@ -94,7 +94,7 @@ def expected_edges(mol):
 def check(rep):
     import gbigsmiles
 
-    coq = fw.coq_check("C16", ["SrcBond"])
+    coq = fw.coq_check("C16", ["SrcBond", "SrcRGraph"])
     quick = rep.tier == "quick"
     rnd = random.Random(rep.seed + 16)
     texts = [("documented", t) for t in gi.DOCUMENTED] + [(a, t) for a, t, _ in gi.cases(rnd.randrange(1 << 30), 260 if quick else 12000)]
